@@ -2,7 +2,10 @@
 
 package proxycore
 
-import "sync/atomic"
+import (
+	"sync/atomic"
+	"time"
+)
 
 // Verification hooks (build tag `verif`). Nothing in this file is compiled into a normal build.
 
@@ -65,4 +68,14 @@ func VerifPoolEndpoint(p interface{}) string {
 		return cp.config.Endpoint.Key()
 	}
 	return ""
+}
+
+// VerifRefreshWindow, when non-zero, replaces ClusterConfig.RefreshWindow (proxy.Config cannot set it).
+var VerifRefreshWindow atomic.Int64
+
+func verifClusterConfig(config ClusterConfig) ClusterConfig {
+	if w := VerifRefreshWindow.Load(); w != 0 {
+		config.RefreshWindow = time.Duration(w)
+	}
+	return config
 }
